@@ -251,7 +251,9 @@ def t_tp_quad_q2(c):
     m, V = _tp(c, "quadrilateral", 2)
     u, v = ufl.TrialFunction(V), ufl.TestFunction(V)
     f = c.coef(V)
-    return [f * inner(grad(u), grad(v)) * dx + inner(u, v) * dx, inner(f, v) * dx]
+    # (the facet form comes last: whatever processing it leaves behind in shared state meets the cell forms only when
+    #  the same objects are generated again)
+    return [f * inner(grad(u), grad(v)) * dx + inner(u, v) * dx, inner(f, v) * dx, inner(f, v) * ufl.ds]
 
 
 def t_tp_hex_q2(c):
@@ -462,6 +464,31 @@ def _req_expr_tri(c, pts):
     return "expressions", [(k * f + f.dx(0), points_variant(pts))]
 
 
+_EXPR_LIT_CTX: dict = {}
+
+
+def _req_expr_lit(c, lit):
+    """expressions that differ in one literal only, at the same points (requests a process typically makes one
+    after the other, each object dying before the next is built)"""
+    # the coefficient (and the points) live as long as the process, like in a program that evaluates a family of
+    # expressions of one function; only the literal and the product are new for every request
+    if "f" not in _EXPR_LIT_CTX:
+        cell = "triangle"
+        m = c.mesh(cell)
+        _EXPR_LIT_CTX["f"] = c.coef(c.space(m, _el("Lagrange", cell, 1)))
+        _EXPR_LIT_CTX["pts"] = points_variant("tri6")
+    # ... and the process has just named the sibling expressions, each of which died before the next was built
+    # (CPython then hands the same address to the next object: anything remembered per id() is stale)
+    import ffcx.naming
+    f, pts = _EXPR_LIT_CTX["f"], _EXPR_LIT_CTX["pts"]
+    for other in ("lit2", "lit3", "lit4", "lit5"):
+        if other != lit:
+            e = LITERALS[other] * f
+            ffcx.naming.compute_signature([(e, pts)], "sibling")
+            del e
+    return "expressions", [(LITERALS[lit] * f, pts)]
+
+
 def _req_expr_int(c, pts):
     cell = "interval"
     m = c.mesh(cell)
@@ -507,6 +534,8 @@ def build_request(recipe: dict, route: int = 0):
         kind, objs = _req_prism(c)
     elif t == "expr_tri":
         kind, objs = _req_expr_tri(c, recipe["pts"])
+    elif t.startswith("expr_lit"):
+        kind, objs = _req_expr_lit(c, t[5:])
     elif t == "expr_int":
         kind, objs = _req_expr_int(c, recipe["pts"])
     elif t == "form_two_mesh":
